@@ -23,6 +23,9 @@ const verif18MaxTime = int64(1) << 40
 
 var verif18Err = errors.New("verif: injected failure")
 
+// V18InjectedErr is the injected failure (for harness files of other packages).
+func V18InjectedErr() error { return verif18Err }
+
 // ---- stubs at the storage / connection boundary ----
 
 type Verif18Reader struct {
